@@ -113,7 +113,7 @@ func msgSpec(seed uint64, n int, sender uint16, g, seq int, exclude map[uint16]b
 	r := newPRNG(seed ^ (uint64(sender)<<40 | uint64(g)<<32 | uint64(seq)))
 	ty := []uint8{0, 1, 2, 3, 2, 1}[r.intn(6)]
 	var topic []byte
-	if comm.VerifShouldHaveTopic(ty) {
+	if pinnedHasTopic(ty) {
 		topic = r.bytes(32)
 	}
 	size := []int{0, 1, 5, 31, 32, 33, 100, 300}[r.intn(8)]
